@@ -6,7 +6,7 @@ patch="$1"; shift
 cd /verif
 if ! git -C /repo diff --quiet; then echo "/repo is dirty, refusing"; exit 2; fi
 trap 'git -C /repo checkout -- . ; git -C /repo clean -fdq -- mutdemo 2>/dev/null' EXIT
-git -C /repo apply "$patch" || { echo "patch does not apply"; exit 2; }
+git -C /repo apply "$(realpath "$patch")" || { echo "patch does not apply"; exit 2; }
 for p in "$@"; do
   out=$(./check "$p" 2>&1)
   echo "$out" | grep -E "^VIOLATION|^KNOWN-FINDING|: (ok|FAIL) in" | sed "s/^/[$p] /" | cut -c1-300
